@@ -122,7 +122,34 @@ func vPrintable(s string) bool {
 	}
 	return true
 }
-func cStr(s string) string { return "\"" + strings.ReplaceAll(s, "\"", "\"\"") + "\"" }
+
+// long strings (keys, certificates) occur several times in one case (configuration, tokens, JSON):
+// they are bound once per case with a let (type-checking long literals dominates the Coq time)
+var vLong = map[string]string{}
+var vLongOrder []string
+
+func cStrLit(s string) string { return "\"" + strings.ReplaceAll(s, "\"", "\"\"") + "\"" }
+func cStr(s string) string {
+	if len(s) < 48 {
+		return cStrLit(s)
+	}
+	id, ok := vLong[s]
+	if !ok {
+		id = fmt.Sprintf("s%d_", len(vLong))
+		vLong[s] = id
+		vLongOrder = append(vLongOrder, s)
+	}
+	return id
+}
+func vLongReset() { vLong, vLongOrder = map[string]string{}, nil }
+func vWithLets(term string) string {
+	var sb strings.Builder
+	for _, s := range vLongOrder {
+		sb.WriteString("let " + vLong[s] + " := " + cStrLit(s) + " in ")
+	}
+	sb.WriteString(term)
+	return sb.String()
+}
 func cStrs(l []string) string {
 	ss := make([]string, len(l))
 	for i, s := range l {
@@ -2077,6 +2104,7 @@ func TestVerifC15(t *testing.T) {
 		_, skip := noLoad[base]
 		after("golden "+base, text, res, !skip)
 		// model vs implementation on the golden, when it lies in the modelled fragment
+		vLongReset()
 		toks, tok := vTokens(text)
 		if app := vGet(res.parsed, "apps", "layer4"); app != nil && tok {
 			ok := true
@@ -2085,7 +2113,7 @@ func TestVerifC15(t *testing.T) {
 				ok = ok && vRoutesModelled(vGet(s, "routes"))
 			}
 			if obs, jok := vJSONCoq(res.parsed); ok && jok {
-				out.Case(fmt.Sprintf("CTokG %s %s", toks, obs), "golden-global", false, base)
+				out.Case(vWithLets(fmt.Sprintf("CTokG %s %s", toks, obs)), "golden-global", false, base)
 			}
 		} else if lws := vLayer4Wrappers(res.parsed); len(lws) > 0 && tok {
 			ok := true
@@ -2093,13 +2121,14 @@ func TestVerifC15(t *testing.T) {
 				ok = ok && vRoutesModelled(vGet(lw, "routes"))
 			}
 			if obs, jok := vJSONCoq(lws); ok && jok {
-				out.Case(fmt.Sprintf("CTokL %s %s", toks, obs), "golden-lw", false, base)
+				out.Case(vWithLets(fmt.Sprintf("CTokL %s %s", toks, obs)), "golden-lw", false, base)
 			}
 		}
 	}
 
 	// ---- generated configurations
 	for i := 0; i < n; i++ {
+		vLongReset()
 		lw := i%4 == 3
 		g.full = i%3 == 2
 		g.big = !lw && i%10 == 5
@@ -2215,7 +2244,7 @@ func TestVerifC15(t *testing.T) {
 		if lw {
 			con = "CLw"
 		}
-		out.Case(fmt.Sprintf("%s %s (%s) %s %s", con, cBool(canonical), coq, toks, obsCoq),
+		out.Case(vWithLets(fmt.Sprintf("%s %s (%s) %s %s", con, cBool(canonical), coq, toks, obsCoq)),
 			fmt.Sprintf("%s/named=%d/nested=%d/not=%d", cls, vMin(named, 3), vMin(nested, 3), notDepth), nt, text)
 	}
 
